@@ -5,12 +5,14 @@
  * under Kani/CBMC.  The Rust side (harness/src/stubs_mmap.rs) drives and observes it through
  * the kv_* functions.
  *
- * The file: kv_file_create(cap_bytes, len_bytes) allocates the file's backing pages
- * (page-rounded cap_bytes, zero filled, CONCRETE size) and sets the file length (may be
- * symbolic, <= cap).  A MAP_SHARED mapping of a file IS the file's page-cache pages, so a
- * successful mmap returns the backing pages themselves: the first `len` bytes are the file
- * content, the rest of the last page reads as zero, stores through the mapping are stores to
- * the file.  What mmap(2) says and the model follows:
+ * The file: kv_file_create(cap_bytes, len_bytes) allocates the file's backing store
+ * (cap_bytes rounded up to 8-byte words, zero filled, CONCRETE size) and sets the file length
+ * (may be symbolic, <= cap).  A MAP_SHARED mapping of a file IS the file's page-cache pages, so
+ * a successful mmap returns the backing store itself: the first `len` bytes are the file
+ * content, stores through the mapping are stores to the file.  The object ends at the capacity,
+ * not at the page boundary: an access between the end of the file and the end of its last page,
+ * which the real OS tolerates, is reported by CBMC as out of bounds (stricter than the OS, equal
+ * to what MemoryMap promises: `len()` elements).  What mmap(2) says and the model follows:
  *   - len == 0                      -> MAP_FAILED (EINVAL)      -- never NULL
  *   - the OS refuses (ENOMEM, ENODEV, EACCES, ...) -> MAP_FAILED -- never NULL
  *   - success -> page-aligned address, ceil(len/4096) pages mapped
@@ -24,10 +26,11 @@
 
 #define KV_PAGE 4096ul
 #define KV_MAX_PAGES 32ul
-#define KV_MAP_FAILED ((void *)-1)
+/* (void *)(size_t)-1: the same bit pattern as Rust's `!0 as *mut c_void` under CBMC; `(void *)-1` from a 32-bit int compares unequal */
+#define KV_MAP_FAILED ((void *)(size_t)-1)
 
 static uint64_t *kv_backing = 0;      /* the file's pages, as 8-byte words (typed: keeps CBMC's encoding of word accesses small) */
-static size_t kv_cap = 0;             /* bytes allocated (multiple of KV_PAGE) */
+static size_t kv_cap = 0;             /* bytes allocated (multiple of 8, CONCRETE in every instance) */
 static size_t kv_len = 0;             /* file length in bytes */
 static int kv_refuse = 0;             /* the OS refuses the next mmap calls */
 
@@ -76,12 +79,12 @@ static uint32_t kv_range(size_t first, size_t cnt)
 /* (every kv_* function returns a value: Kani declares a Rust `-> ()` foreign function with a unit struct return type, which does not link against C `void`) */
 int kv_file_create(size_t cap_bytes, size_t len_bytes)
 {
-    size_t pages = kv_pages(cap_bytes);
-    if (pages == 0) pages = 1;
-    __CPROVER_assert(pages <= KV_MAX_PAGES, "mmap model: file capacity within 32 pages");
-    __CPROVER_assert(len_bytes <= pages * KV_PAGE, "mmap model: file length within capacity");
-    kv_cap = pages * KV_PAGE;
-    kv_backing = (uint64_t *)malloc(sizeof(uint64_t) * (pages * (KV_PAGE / 8)));
+    size_t words = cap_bytes / 8 + (cap_bytes % 8 != 0 ? 1 : 0);
+    if (words == 0) words = 1;
+    __CPROVER_assert(kv_pages(words * 8) <= KV_MAX_PAGES, "mmap model: file capacity within 32 pages");
+    __CPROVER_assert(len_bytes <= words * 8, "mmap model: file length within capacity");
+    kv_cap = words * 8;
+    kv_backing = (uint64_t *)malloc(sizeof(uint64_t) * words);
     __CPROVER_array_set(kv_backing, (uint64_t)0);
     kv_len = len_bytes;
     kv_refuse = 0;
@@ -151,7 +154,7 @@ void *mmap(void *addr, size_t len, int prot, int flags, int fd, long off)
     kv_mmap_addr = addr; kv_mmap_len = len; kv_mmap_prot = prot; kv_mmap_flags = flags; kv_mmap_fd = fd; kv_mmap_off = off;
     if (len == 0) return KV_MAP_FAILED;      /* EINVAL */
     if (kv_refuse) return KV_MAP_FAILED;     /* ENOMEM, ENODEV, EACCES, ... */
-    if (kv_backing == 0 || kv_pages(len) > kv_cap / KV_PAGE) {
+    if (kv_backing == 0 || len > kv_cap) {
         kv_mmap_oversize = 1;                /* outside the model: the harness asserts this never happens */
         return KV_MAP_FAILED;
     }
